@@ -16,6 +16,18 @@ class Mixed(AbstractDtype):
     dtypes = ("int8", re.compile("complex.*"))
 
 
+class Encoder:
+    """categories defined in a class body: importable by their qualified name (Encoder.Dt), which is how pickle refers to them"""
+
+    class Dt(AbstractDtype):
+        dtypes = ["float16", "float32"]
+
+
+class Decoder:
+    class Dt(AbstractDtype):  # same bare name, other dtypes, defined later
+        dtypes = ["int8", "uint8"]
+
+
 class DuckArr:
     def __init__(self, shape, dtype):
         self.shape = tuple(shape)
